@@ -50,7 +50,7 @@ DIRS = [('SKIP', True), ('SKIP', False), ('REQ', True, MET), ('REQ', False, MET)
         # one REQUIRES directive with two conditions, the satisfied one written first / last
         ('REQ', True, MET + ', ' + A), ('REQ', False, MET + ', ' + A), ('REQ', True, B + ', ' + MET)]
 INLINE_SHAPES = ['one', 'multi_first', 'multi_last', 'compound', 'deco', 'want', 'decoclass', 'decoclass_new', 'deco_new']
-PLAIN_SHAPES = ['one', 'multi', 'want', 'string', 'deco', 'string_ml', 'decoclass', 'decoclass_new', 'deco_new']
+PLAIN_SHAPES = ['one', 'multi', 'want', 'string', 'deco', 'string_ml', 'decoclass', 'decoclass_new', 'deco_new', 'blank_prompt', 'string_blank']
 DEFAULTS = ['none', 'skip_config', 'skip_cli']
 
 
@@ -103,6 +103,11 @@ def render(ev, k):
             return ['>>> @(lambda cls: (T.append({}), cls)[1])'.format(k), '>>> class K{}:{}'.format(k, c), '>>>     x = 1']
         if shape == 'want':
             return ['>>> print(T.append({})){}'.format(k, c), 'WANT{}'.format(k)]
+        if shape == 'blank_prompt':
+            # a bare prompt: an empty executable line in the middle of the chunk
+            return ['>>> T.append({})'.format(k), '>>>']
+        if shape == 'string_blank':
+            return [">>> T.append({}) or '''first".format(k), '...', "... last'''"]
         if shape == 'string':
             return [">>> T.append({}) or '# xdoctest: +SKIP'".format(k)]
         if shape == 'string_ml':
